@@ -163,6 +163,21 @@ class MathEnv:
                      {'fill_invalid': lambda a: a[5], 'clamp__0': lambda a: a[6].f[0], 'clamp__1': lambda a: a[6].f[1]}))
         vm.add_model(M('array_update_var_inv_std_grad'), elem_kernel('array_update_var_inv_std_grad', [(2, True), (1, True), (3, False)],
                      {'fill_invalid': lambda a: a[4], 'clamp__0': lambda a: a[5].f[0], 'clamp__1': lambda a: a[5].f[1]}))
+        # low-rank map: out = (I + U (diag(vals) - I) U^T) x, U given as a Seq of columns
+        def lowrank(x, U, vals):
+            out = list(x)
+            for col, lam in zip(U, vals):
+                c = dot(col, x); f = A.mul(A.sub(lam, A.const(1.0)), c)
+                out = [A.add(o, A.mul(ui, f)) for o, ui in zip(out, col)]
+            return out
+        def eig(m, r):
+            v = deref_val(vm, m, r); return [list(cc.items) for cc in v.items]
+        def lr_out(vm, m, c, a):
+            E.setvec(m, a[4], lowrank(E.vec(m, a[3]), eig(m, a[1]), E.vec(m, a[2]))); return ret(m, UNIT)
+        def lr_in(vm, m, c, a):
+            E.setvec(m, a[3], lowrank(E.vec(m, a[3]), eig(m, a[1]), E.vec(m, a[2]))); return ret(m, UNIT)
+        vm.add_model(M('apply_lowrank_transform'), lr_out)
+        vm.add_model(M('apply_lowrank_transform_inplace'), lr_in)
         vm.add_model(M('logp_array'), self.logp_array)
         vm.add_model(r' as LogpError>::is_recoverable$', lambda vm, m, c, a: ret(m, deref_val(vm, m, a[0]).f[0] == 'rec'))
 
